@@ -70,9 +70,9 @@ def op_str(op):
     return 'advance(%dms)' % op[1]
 
 
-def make_template(ctx, store):
+def make_template(ctx, store, prep=-1):
     """Life 0: `squid -z`, store the pre-existing entries, clean shutdown.  Returns the directory to copy."""
-    cw = cs.CacheWorld(ctx, 'life0-' + store, -1, store)
+    cw = cs.CacheWorld(ctx, 'life0-' + store, prep, store)
     try:
         r = cw.first_life(count=False, init=True)
         if r:
@@ -123,9 +123,9 @@ def run_workload(cw, store, op_marks=None):
     return None
 
 
-def counting_run(ctx, store, template, pre_served):
+def counting_run(ctx, store, template, pre_served, prep=-1):
     """Learn the mutation sequence: list of dicts(n, op, len, path, wop (workload op index, -1 = start-up), cls)."""
-    cw = cs.CacheWorld(ctx, 'count-' + store, -1, store, template)
+    cw = cs.CacheWorld(ctx, 'count-' + store, prep, store, template)
     cw.served = {k: list(v) for k, v in pre_served.items()}
     try:
         r = cw.first_life()
@@ -241,7 +241,32 @@ def mode_class(mode):
     return 'partial' if mode.startswith('partial') else mode
 
 
-def run_case(ctx, shard, case, info):
+def dump_rock(path):
+    """Slot table of a rock db file (replay aid): slot, key prefix, entrySize, payloadSize, version, firstSlot, nextSlot."""
+    import struct
+    out = []
+    try:
+        with open(path, 'rb') as f:
+            f.seek(16384)
+            i = 0
+            while True:
+                b = f.read(cs.ROCK_SLOT)
+                if len(b) < cs.ROCK_HDR:
+                    break
+                k0, k1, esz, psz, ver, first, nxt = struct.unpack('<QQQIIii', b[:cs.ROCK_HDR])
+                if first or nxt or psz:
+                    body = b[cs.ROCK_HDR:cs.ROCK_HDR + psz]
+                    import re
+                    tags = sorted(set(t.decode() for t in re.findall(rb'X-V: (u[0-9]+-v[0-9]+)', body)))
+                    out.append('slot %2d key %016x entrySize %6d payload %5d version %d first %2d next %2d %s' % (
+                        i, k0, esz, psz, ver, first, nxt, ' '.join(tags)))
+                i += 1
+    except OSError as e:
+        out.append('cannot read %s: %s' % (path, e))
+    return out
+
+
+def run_case(ctx, shard, case, info, dump=False):
     """One execution = one choice (store, n, mode).  Returns dict(transcript, outcome, violations[(key, what)], ...)."""
     store, n, mode = case['store'], case['n'], case['mode']
     muts = info['muts']
@@ -271,6 +296,10 @@ def run_case(ctx, shard, case, info):
             ' (%d bytes written)' % case['cut'] if mode.startswith('partial') else '',
             'start-up' if m['wop'] < 0 else 'op %d %s' % (m['wop'], op_str(WORKLOADS[store]['ops'][m['wop']])))
         kbase = '%s:%s-%s' % (store, mode_class(mode), m['cls'])
+        if dump and store == 'rock':
+            print('rock db after the crash:')
+            for l in dump_rock(os.path.join(cw.sq.cache_path, 'rock')):
+                print('  ' + l)
         rr = cw.restart()
         hits = misses = 0
         probes = []
@@ -317,12 +346,20 @@ def explore(ctx, plan):
     t_end = ctx.t0 + ctx.deadline_s
     infos = {}
     cases = []
+    def prep(i, its):
+        out = []
+        for store, modes in its:
+            template, pre_served = make_template(ctx, store, -1 - i)
+            muts, final, served = counting_run(ctx, store, template, pre_served, -1 - i)
+            out.append((store, {'template': template, 'pre_served': pre_served, 'muts': muts, 'final': final}))
+        return out
+    # the (at most two) stores are prepared side by side
+    for part in ls.run_sharded(ctx, prep, list(plan), nshards=2):
+        for store, info in part or []:
+            infos[store] = info
     for store, modes in plan:
-        template, pre_served = make_template(ctx, store)
-        muts, final, served = counting_run(ctx, store, template, pre_served)
-        infos[store] = {'template': template, 'pre_served': pre_served, 'muts': muts, 'final': final}
-        cs_ = make_cases(store, muts, modes)
-        cases += cs_
+        final = infos[store]['final']
+        cases += make_cases(store, infos[store]['muts'], modes)
         # vacuity of the workload itself
         kinds = set(final.values())
         if not any(k.startswith('hit') for k in kinds) or 'miss' not in kinds:
@@ -347,8 +384,8 @@ def explore(ctx, plan):
             r = timed(case)
             if r is None:
                 break
-            if idx == 0 and shard < 4:
-                # determinism obligation: the first execution of shards 0..3 is run twice, transcripts must agree
+            if idx == 0 and shard < 2:
+                # determinism obligation: the first execution of shards 0 and 1 is run twice, transcripts must agree
                 # (every execution additionally checks its mutation log against the counting run)
                 r2 = timed(case)
                 if r2 is None:
@@ -451,7 +488,10 @@ def replay(ctx, data):
     template, pre_served = make_template(ctx, store)
     muts, final, served = counting_run(ctx, store, template, pre_served)
     info = {'template': template, 'pre_served': pre_served, 'muts': muts, 'final': final}
-    r = run_case(ctx, 0, case, info)
+    try:
+        r = run_case(ctx, 0, case, info, dump=True)
+    finally:
+        shutil.rmtree(template, ignore_errors=True)
     print(r['where'])
     print('pre-crash origin versions:', r['served_before'])
     print(r['transcript'])
